@@ -207,6 +207,33 @@ Theorem C10_before_F38_refuted :
    mx (frun the_code new [FWake; FFeed; FWake]) = MBreak1 TerminatedWorkerError).
 Proof. exact before_F38_refuted. Qed.
 
+(* The lock ORDER (two locks: Parallel._lock = P, held by a dispatching caller around submit; shutdown_lock = S).
+   The done-callbacks take P.  In the code the manager takes S only inside flag_as_broken and releases it before it
+   runs any callback (FFlag and FFailAll are different steps; no callback runs in FFlag): so it never holds S between
+   two of its steps, a dispatching caller is never kept out of submit by the manager, no state is deadlocked, and
+   the invariants of M10c are untouched by the P-lock (the wrapper only delays FFailAll while the caller dispatches).
+   Tie to the code: the lock probe of the harness (shutdown_lock wrapped with an owner-recording proxy, every
+   completion callback asserts that its thread does not own it). *)
+Theorem C10_lock_order_no_deadlock : forall c st d,
+  gstep false c (st, d) (GF FCheck) = (fstep c st FCheck, d) /\ deadlocked false (st, d) = false.
+Proof. exact caller_never_blocked_by_manager. Qed.
+
+Theorem C10_lock_discipline_with_dispatch_lock : forall cbl c evs mw qc p0, locked c = true ->
+  FI (fst (grun cbl c (finit mw qc p0, false) evs)).
+Proof. intros cbl c evs mw qc p0 H. apply FI_grun; [exact H | apply FI_init]. Qed.
+
+(* seeded defect C10-14: the fail-all loop of terminate_broken under shutdown_lock.  The caller dispatches (holds P),
+   a worker dies, the manager flags under S and keeps S for the callbacks, which need P: both threads are blocked
+   for ever with future 0 running; with the real order the same schedule blocks nobody and the future is failed. *)
+Theorem C10_callbacks_under_lock_refuted :
+  let g := grun true the_code (finit 2 5 0, false) deadlock_trace in
+  deadlocked true g = true /\ futs (ex (fst g)) 0 = FRunning /\
+  gstep true the_code g (GF FCheck) = g /\ gstep true the_code g (GF FFailAll) = g /\
+  (let h := grun false the_code (finit 2 5 0, false) deadlock_trace in
+   deadlocked false h = false /\
+   futs (ex (fst (grun false the_code h [GF FCheck; GDispatchEnd; GF FFailAll]))) 0 = FExc (PoolError TerminatedWorkerError)).
+Proof. exact callbacks_under_lock_deadlock. Qed.
+
 (* A worker that dies AFTER its whole result message was written: which outcome the affected call has is a
    race between the results of the other workers and the manager thread noticing the sentinel
    (wait_result_broken_or_wakeup reads the result pipe first).  Both schedules are event sequences of the
